@@ -17,6 +17,8 @@ import inspect
 import json
 import typing
 
+import pydantic
+
 import vtime
 from common import NONE, A, Model, Result, Rng, parse_sx, sx
 
@@ -85,7 +87,10 @@ def compile_fn(sig: dict, idx: int):
     """build `async def f<idx>(…)` with the given signature; the body records what it received"""
     parts = []
     seen_default = False
-    env = {"CALLS": CALLS, "Depends": Depends, "typing": typing, "DF": DFLTS}
+    env = {"CALLS": CALLS, "Depends": Depends, "typing": typing, "DF": DFLTS, "Field": pydantic.Field}
+    # Pydantic's own way of declaring a parameter (converter = pydantic only): `= Field(default=…)` for a default,
+    # `= Field()` / `= Field(description=…)` for a required one — every such parameter has a *Python* default (the FieldInfo)
+    field_style = bool(sig.get("field_style"))
 
     def param_src(p):
         nonlocal seen_default
@@ -99,7 +104,13 @@ def compile_fn(sig: dict, idx: int):
         if p["default"]:
             seen_default = True
             DFLTS[p["name"]] = DFLTS.get(p["name"]) or Dflt(p["name"])
+            if field_style:
+                how = f"default=DF['{p['name']}']" if ord(p["name"]) % 2 else f"default_factory=lambda: DF['{p['name']}']"
+                return f"{p['name']}: typing.Any = Field({how})"
             return f"{p['name']}=DF['{p['name']}']"
+        if field_style:
+            seen_default = True
+            return f"{p['name']}: typing.Any = Field(" + ("" if ord(p["name"]) % 2 else "description='required'") + ")"
         return p["name"]
     for p in sig["posOnly"]:
         parts.append(param_src(p))
@@ -133,6 +144,9 @@ def sig_sx(sig: dict):
 def gen_payload(rng: Rng, sig: dict):
     named = [p for p in sig["posOnly"] + sig["posOrKw"] + sig["kwOnly"] if not p["dep"]]
     kind = rng.choice(["empty", "exact", "exact", "missing", "extra", "extra+missing", "nulls"])
+    deps = [p["name"] for p in sig["posOrKw"] + sig["kwOnly"] if p["dep"]]
+    if deps and rng.random() < 0.25:
+        kind = "depkey"          # a payload entry named like a dependency parameter
     if kind == "empty":
         return kind, None
     vals = [1, "s", [1, 2], {"k": 1}, 0, False, None, 2.5, ""]
@@ -144,6 +158,8 @@ def gen_payload(rng: Rng, sig: dict):
     if kind in ("extra", "extra+missing"):
         for x in rng.sample(["x", "y", "zz"], rng.choice([1, 2])):
             fields[x] = rng.choice(vals)
+    if kind == "depkey":
+        fields[rng.choice(deps)] = rng.choice(["from-payload", 7])
     items = list(fields.items())
     rng.shuffle(items)
     return kind, dict(items)
@@ -154,7 +170,10 @@ def val_sx(v):
         return [A("dflt"), v.name]
     if isinstance(v, tuple) and len(v) == 2 and v[0] == "dep":
         return [A("dep"), v[1]]
-    return [A("json"), json.dumps(v, sort_keys=True)]
+    try:
+        return [A("json"), json.dumps(v, sort_keys=True)]
+    except TypeError:
+        return [A("object"), type(v).__name__]      # nothing a payload or a declared default can produce
 
 
 def observed_sx(call, sig):
@@ -234,8 +253,10 @@ def check_programs(recs: list, model: Model, res: Result) -> None:
         mod, spec = answers[2 * n], answers[2 * n + 1]
         sig = r["sig"]
         shape = (len(sig["posOnly"]), len(sig["posOrKw"]), sig["varPos"], len(sig["kwOnly"]), sig["varKw"],
-                 sum(p["dep"] for p in sig["posOrKw"] + sig["kwOnly"]), sum(p["default"] for p in sig["posOnly"] + sig["posOrKw"] + sig["kwOnly"]))
+                 sum(p["dep"] for p in sig["posOrKw"] + sig["kwOnly"]), sum(p["default"] for p in sig["posOnly"] + sig["posOrKw"] + sig["kwOnly"]),
+                 bool(sig.get("field_style")))
         res.dist[f"{r['converter']}:{r['payload_kind']}"] += 1
+        res.dist["declaration-style:" + ("pydantic-Field" if sig.get("field_style") else "plain")] += 1
         case = {"signature": r["src"].split("\n")[0], "converter": r["converter"], "payload": r["payload"]}
         res.note((shape, r["payload_kind"], r["converter"], json.dumps(r["payload"], sort_keys=True)),
                  sample=case if len(res.samples) < 5 else None)
@@ -265,6 +286,13 @@ def check_programs(recs: list, model: Model, res: Result) -> None:
         spec_n, obs_n = norm(spec), norm(obs)
         if obs_n == "(err unsupported)":
             continue         # the converter does not support this signature (declared so at declaration time)
+        deps = {p["name"] for p in sig["posOrKw"] + sig["kwOnly"] if p["dep"]}
+        if r["model_cmd"] == "conv.basic" and sig["varKw"] and r["payload"] and deps & set(r["payload"]):
+            # the point the main theorem excludes (NoDepKeys): an entry named like a dependency parameter cannot be handed to
+            # **kwargs — Python rejects the repeated keyword, the execution must fail (C08.dep_key_collision_fails), and in no
+            # case may the actor body see payload data in a dependency parameter
+            res.dist["dep-named-payload-key"] += 1
+            spec_n = spec = "(err)"
         if obs_n != spec_n:
             trig = F6B if (r["model_cmd"] == "conv.basic" and f6b_trigger(sig, r["payload"])) else None
             res.bad("impl", "arguments received by the actor differ from the specification (entry of its name, else default; "
@@ -342,7 +370,10 @@ def run(ctx) -> Result:
     for i in range(3000 if deep else 500):
         sig = gen_sig(rng)
         kind, payload = gen_payload(rng, sig)
-        programs.append((sig, rng.choice(["basic", "basic", "pydantic", "default"]), kind, payload))
+        conv = rng.choice(["basic", "basic", "pydantic", "default"])
+        if conv != "basic" and rng.random() < 0.35:
+            sig["field_style"] = True
+        programs.append((sig, conv, kind, payload))
     recs = vtime.run(lambda loop: run_programs(programs), budget=50_000_000)
     check_programs(recs, model, res)
     part_pycall(rng, model, res, 6000 if deep else 1200)
